@@ -135,4 +135,4 @@ def valid_natural(data: Union[ttb.tensor, ttb.sptensor]) -> bool:
         vals = data.vals
     else:
         vals = data.data
-    return bool(np.all(vals % 1 == 0))
+    return bool(np.all(vals % 1 == 0) and np.all(vals >= 0))
